@@ -77,12 +77,19 @@ theorem key_identity_fails_bool_int :
 /-- F15f (kernel-checked witness): `xs:date('2000-01-01')` and `xs:date('2000-01-01Z')` are found
 equal by the `==` scan of map:contains (same-key says no: only one has a timezone), and
 `xs:date('2000-12-31-12:00')` / `xs:date('2001-01-01+12:00')` are the same instant with a timezone
-(same key) but different for the code, which compares the years first. -/
+(same key, and `==` for the scans since C11's fix of `_compare`) but land in different dict slots,
+because `__hash__` still mixes in the lexical year: map:get / the constructor keep them apart. -/
 theorem key_identity_fails_dates :
     scanEq (.date 2000 15778080 none) (.date 2000 15778080 (some 0)) = true ∧
     Spec.sameKey (.date 2000 15778080 none) (.date 2000 15778080 (some 0)) = false ∧
     dictEq (.date 2000 16304400 (some (-720))) (.date 2001 16304400 (some 720)) = false ∧
-    Spec.sameKey (.date 2000 16304400 (some (-720))) (.date 2001 16304400 (some 720)) = true := by
+    scanEq (.date 2000 16304400 (some (-720))) (.date 2001 16304400 (some 720)) = true ∧
+    Spec.sameKey (.date 2000 16304400 (some (-720))) (.date 2001 16304400 (some 720)) = true ∧
+    mapCtor [(.date 2000 16304400 (some (-720)), [1]), (.date 2001 16304400 (some 720), [2])]
+      = (.ok [(.date 2000 16304400 (some (-720)), [1]), (.date 2001 16304400 (some 720), [2])] :
+          Except Err (Entries (List Nat))) ∧
+    Spec.construct [(.date 2000 16304400 (some (-720)), [1]), (.date 2001 16304400 (some 720), [2])]
+      = (.error .XQDY0137 : Except Err (Entries (List Nat))) := by
   decide
 
 /-! ## arrays: every function equals its list definition -/
@@ -161,7 +168,8 @@ theorem contains_put (es : Entries α) (h : WF es) (k k' : Key) (v : α) :
 
 /-- **size_put**: map:put adds one entry if the key was absent and keeps the size otherwise —
 for maps no two of whose keys are `==` (which is `WF` as soon as the keys do not clash; with a
-date with and one without timezone in the same map the code removes both, F15f). -/
+date with and one without timezone, or two same-instant dates of different years, in the same
+map the code removes both, F15f). -/
 theorem size_put (es : Entries α) (h : WF es) (hs : ScanWF es) (k : Key) (v : α) :
     ∃ es', mapPut es k v = .ok es' ∧
       es'.length = if mapContains es k then es.length else es.length + 1 :=
